@@ -49,6 +49,17 @@ func Run(cfg hx.Config) (*hx.Meta, error) {
 	types = ga.Dedup(append(types,
 		ga.St(cat.E1, cat.E2), ga.P(ga.St(ga.P(cat.E3), cat.E2)), ga.M(cat.E3, ga.Sl(cat.E1)), ga.Sl(ga.P(cat.E2)),
 		ga.P(ga.P(cat.S0)), ga.P(ga.P(ga.B("int"))), ga.M(ga.B("string"), ga.Ar(2, ga.P(ga.B("int")))), ga.P(cat.Rec), ga.P(cat.MA), ga.P(cat.SP), ga.P(cat.E1)))
+	// (E) unexported fields whose TYPE is imported: in a local struct (the field is reached by a plain
+	// selector, its type need not be printed) and in an imported struct (reached through unsafe, the type is
+	// printed), among them a type with value-receiver Equal/Compare methods of its own
+	mx := ga.Named(101, "MX", 1, ga.St(ga.B("int"), ga.B("string")))
+	mx.Methods = "func (a MX) Equal(b MX) bool { return a.F0 == b.F0 }\n\n" +
+		"func (a MX) Compare(b MX) int {\n\tif a.F0 < b.F0 {\n\t\treturn -1\n\t}\n\tif a.F0 > b.F0 {\n\t\treturn 1\n\t}\n\treturn 0\n}\n\n"
+	lp := ga.Named(23, "LP", 0, ga.StP([]bool{false, true}, ga.B("int"), cat.E3))
+	lp2 := ga.Named(24, "LP2", 0, ga.StP([]bool{true, true, false}, cat.E3, ga.P(cat.E2), ga.B("string")))
+	hx1 := ga.Named(36, "HX", 1, ga.StP([]bool{true, false}, mx, ga.B("int")))
+	hx2 := ga.Named(37, "HY", 2, ga.StP([]bool{false, true, true}, ga.B("int"), cat.E4, ga.Sl(cat.E2)))
+	types = ga.Dedup(append(types, lp, ga.P(lp), lp2, ga.P(lp2), ga.Sl(lp), hx1, ga.P(hx1), ga.Sl(hx1), hx2, ga.P(hx2), ga.M(ga.B("string"), hx1)))
 	var obs strings.Builder
 	for gi, g := range groups {
 		probes := ga.Probe(cfg.Goderive, filepath.Join(cfg.Work, fmt.Sprintf("probe-%s", g.name)), types, g.calls, true)
